@@ -89,3 +89,60 @@ for label, kws in INST.items():
                      instance_kwargs={label: kws}, any_closure=True),
              params={"data": "D"}, post=post, loops=LOOPS, clause_props=CP,
              cover=["returned", "raised", f"raised and not {EXCLUDED} and {ITERABLE}"])
+
+
+# ================================================================================================ dumpers
+# The composed dumper that `_make_dumper` really returns, per debug-trail mode, against ONE mode-independent specification: every
+# element is dumped by the element dumper, in order, into a NEW container built by the factory (C01: this is the sequence the loader
+# maps back element-wise; C02; C06: the same accept / value formulas in the three modes; C20: fresh result, argument untouched).
+D_ALL_OK = f"forall(lambda j: implies(0 <= j and j < {N}, ok(arg_dumper, {EL}[j])))"
+D_FIRST_FAIL = ("(0 <= {k} and {k} < len(elems(data)) and not ok(arg_dumper, elems(data)[{k}]) and "
+                "forall(lambda j: implies(0 <= j and j < {k}, ok(arg_dumper, elems(data)[j]))))")
+D_POST = {
+    "accept-iff": f"returned == ({D_ALL_OK})",
+    "value": (f"implies(returned, result == construct(iter_factory, built_from(result)) and len(built_from(result)) == {N} and "
+              f"forall(lambda j: implies(0 <= j and j < {N}, built_from(result)[j] == res(arg_dumper, {EL}[j]))))"),
+    "fresh-result": "implies(returned, is_fresh(result))",
+}
+D_POST_DISABLE = {
+    "first-error": f"implies(raised, exists(lambda k: {D_FIRST_FAIL.format(k='k')} and is_err(exc, arg_dumper, elems(data)[k]) and trail_unchanged(exc)))",
+}
+D_POST_FIRST = {
+    "first-error": f"implies(raised, exists(lambda k: {D_FIRST_FAIL.format(k='k')} and is_err(exc, arg_dumper, elems(data)[k]) and trail_top_is(exc, k)))",
+}
+D_POST_ALL = {
+    "agg-class": "implies(raised, type(exc) is CompatExceptionGroup)",
+    "agg-sound": (f"implies(raised, forall(lambda k: implies(0 <= k and k < len({SUB}), elem_error({SUB}[k], arg_dumper, {EL}, {N}))))"),
+    "agg-complete": (f"implies(raised, forall(lambda j: implies(0 <= j and j < {N} and not ok(arg_dumper, {EL}[j]), "
+                     f"exists(lambda k: 0 <= k and k < len({SUB}) and is_err({SUB}[k], arg_dumper, {EL}[j]) and trail_top_is({SUB}[k], j)))))"),
+    "agg-once": (f"implies(raised, forall(lambda k1, k2: implies(0 <= k1 and k1 < k2 and k2 < len({SUB}), "
+                 f"top_index({SUB}[k1]) < top_index({SUB}[k2]))))"),
+}
+D_CP = {"accept-iff": ["C02", "C06"], "value": ["C02", "C06", "C01"], "fresh-result": ["C20"], "first-error": ["C05", "C06"],
+        "agg-class": ["C05", "C06"], "agg-sound": ["C05"], "agg-complete": ["C05", "C06"], "agg-once": ["C05"], "modifies-nothing": ["C20"]}
+D_LOOPS = {
+    ("iter_dumper_dt_first", 0): LoopSpec(
+        binds={"idx": "_i"},
+        inv=["len(yielded) == _i",
+             "forall(lambda j: implies(0 <= j and j < _i, ok(dumper, iterable[j]) and yielded[j] == res(dumper, iterable[j])))"]),
+    ("iter_dumper_dt_all", 0): LoopSpec(
+        binds={"idx": "_i"}, havoc_trails=True,
+        inv=[f"implies(len({E}) == 0, len(yielded) == _i)",
+             f"implies(len({E}) == 0, forall(lambda j: implies(0 <= j and j < _i, ok(dumper, iterable[j]) and yielded[j] == res(dumper, iterable[j]))))",
+             f"forall(lambda k: implies(0 <= k and k < len({E}), elem_error({E}[k], dumper, iterable, _i)))",
+             f"forall(lambda j: implies(0 <= j and j < _i and not ok(dumper, iterable[j]), exists(lambda k: 0 <= k and k < len({E}) "
+             f"and is_err({E}[k], dumper, iterable[j]) and trail_top_is({E}[k], j))))",
+             f"forall(lambda k1, k2: implies(0 <= k1 and k1 < k2 and k2 < len({E}), top_index({E}[k1]) < top_index({E}[k2])))",
+             ]),
+}
+for dt in (DebugTrail.DISABLE, DebugTrail.FIRST, DebugTrail.ALL):
+    post = dict(D_POST)
+    post.update({"DISABLE": D_POST_DISABLE, "FIRST": D_POST_FIRST, "ALL": D_POST_ALL}[dt.name])
+    contract(F, "IterableProvider._make_dumper", name=f"{F}:IterableProvider._make_dumper[{dt.name}]",
+             props=["C01", "C02", "C05", "C06", "C20"],
+             via=Via("IterableProvider._make_dumper", {dt.name: lambda m: m.IterableProvider()},
+                     kwargs={"origin": "sym", "iter_factory": "FACTORY", "arg_dumper": "DUMP"},
+                     instance_kwargs={dt.name: {"debug_trail": ("const", dt)}}, any_closure=True),
+             params={"data": "D"}, requires=[ITERABLE], post=post, loops=D_LOOPS, clause_props=D_CP,
+             cover=["returned", "raised"],
+             notes=["the dumped object is an iterable (precondition: dumpers are applied to values of the declared type)"])
